@@ -7,7 +7,10 @@ ENTRY = {
             "row group of 66k-69k rows (re-sliced into 65 536-row views). Per case three copies of the file and one child process per QE_IPC_CACHE in {0, 1, unset}: mode 0 answers; "
             "mode 1: 2-8 threads scan a cold copy at once (they race to build its sidecar under BUILD_LOCK), then cold + warm answers on another copy, then the sidecar of that copy "
             "is read back row group by row group; mode auto: answers with the sidecar built by the mode-1 child, and on a copy that never had one. Answers = 5 SQL queries "
-            "(COUNT/SUM, WHERE k > c, GROUP BY s, WHERE s = 'v1', COUNT(w)) + a provider scan summary. non-trivial = table with >= 2 rows; distinct by sha256 of the case",
+            "(COUNT/SUM, WHERE k > c, GROUP BY s, WHERE s = 'v1', COUNT(w)) + a provider scan summary. Every 8th case is a SCHEDULED interleaving on the real code through the yield points "
+            "40-46 of ipc_cache.rs (child processes parked on control files): xproc-race (two builder processes both with a complete staging directory; A publishes; a reader "
+            "process passes is_fresh and is parked before open(rg_k); B runs remove_dir_all(final); the reader is released), xproc-safe (B finishes before the reader starts), "
+            "inproc (thread A parked holding BUILD_LOCK with its staging complete while threads B, C arrive). non-trivial = table with >= 2 rows; distinct by sha256 of the case",
     "trusted_base": COMMON_TB + [
         "modelled not verified: the sidecar protocol steps of ensure_sidecar / build_sidecar / read_row_group (IQE.Engine.Sidecar); atomicity of single file-system steps "
         "(create+write of a private file, unlink, rmdir, rename of a directory), mmap-after-unlink keeping the mapped content (OS assumptions)",
@@ -15,10 +18,10 @@ ENTRY = {
     ],
     "assumptions": [
         "fixed source file during a history (the required stamp does not change; rewrites are C19)",
-        "the cross-process interleavings are explored in the MODEL only (C20_crossprocess_witness); driving them on the real code needs the yield points of "
-        "proposed_fixes/hook-ipc-cache.patch, which is not applied yet — until then the real-code part covers mode invariance, round trip and in-process thread races",
+        "of the cross-process interleavings only the witness schedule and one safe schedule are driven on the real code (yield points 40-46, /repo 325dad0); the others are covered by the model theorems; "
+        "a scheduled case whose control-file waits time out (machine overloaded) is tagged sched-timeout and judged only for 'no wrong rows'",
     ],
-    "min_tags": {"sidecar-dict": 1, "sidecar-plain": 1},
+    "min_tags": {"sidecar-dict": 1, "sidecar-plain": 1, "sched-xproc-race": 1, "sched-inproc": 1},
     "manifest": {
         "category": "proof",
         "text": "Lean theorems over a small-step protocol model of the sidecar code (atomic single file-system steps, remove_dir_all as a sequence of unlinks, BUILD_LOCK per process), "
@@ -27,10 +30,11 @@ ENTRY = {
                 "(C20_crossprocess_partial) — PARTIAL: full cross-process safety is false, C20_crossprocess_witness is the kernel-checked 17-step interleaving (two processes, one reader) "
                 "in which the second builder's remove_dir_all deletes rg_0 of the winner's fresh directory between the reader's is_fresh and open (the reader gets an I/O error, never wrong rows); "
                 "re-slicing loops are partitions (C20_roundtrip_partial; dictionary coercion/demotion is library code, sampled only). Tie: real files, answers under QE_IPC_CACHE=0/auto/1 cold and "
-                "warm must be identical, sidecar content = decoded row groups, 2-8 racing in-process threads.",
+                "warm must be identical, sidecar content = decoded row groups, 2-8 racing in-process threads, and scheduled interleavings through yield points. The witness interleaving is REPRODUCED on the real "
+                "code (reader fails with 'No such file or directory'): known finding C20-F1; repair proposed (cross-process file lock), for which C20_crossprocess_of_shared_lock is the full-strength theorem.",
         "design_ref": "DESIGN.md §6 C20",
-        "level_note": "Trusted: Lean kernel; axioms propext/Quot.sound; the protocol model; OS atomicity assumptions; Arrow/Parquet libraries; harness generators. Partial: cross-process races "
-                      "are proved about the model and not yet driven on the real code (hook patch proposed); OS rename atomicity and mmap-after-unlink are assumptions.",
+        "level_note": "Trusted: Lean kernel; axioms propext/Quot.sound; the protocol model; OS atomicity assumptions; Arrow/Parquet libraries; harness generators. Partial: full cross-process safety is false of the unchanged tree "
+                      "(C20-F1); OS rename atomicity and mmap-after-unlink are assumptions.",
         "technique": "Lean 4 invariant proofs over a small-step concurrent protocol model + explicit counterexample trace + differential runs on real files across cache modes and threads",
     },
 }
